@@ -136,8 +136,61 @@ def gen_sites(tier, rng):
                 fc = ["not", fc]
             filters.append({"dets": fn, "cond": fc})
         adds = [rng.random() < 0.3 for _ in range(rng.choice([0, 1, 1, 2, 3]))]
-        out.append({"k": "names", "dets": names, "cond": cond, "filters": filters, "adds": adds, "rseed": i})
+        c = {"k": "names", "dets": names, "cond": cond, "filters": filters, "adds": adds, "rseed": i}
+        if filters:
+            c["mode"] = rng.choice(["stream", "one_call", "separate"])
+            c["plans"] = draw_plans(rng, len(filters), varlen=rng.random() < 0.15)
+        out.append(c)
+    # the draw dimension: several filters on one rule (same and different detection names, `them` and wildcard
+    # selectors), applied in one call / in separate calls / as documents of the stream, under adversarial draw
+    # sequences (see draw_plans)
+    fconds = [lambda ns: ["not", ["sel", False, "them"]], lambda ns: ["not", ["sel", True, "them"]],
+              lambda ns: ["not", ["sel", False, ns[0][0] + "*"]], lambda ns: ["not", ["sel", False, "*"]],
+              lambda ns: ["not", ["bin", True, ["id", ns[0]], ["sel", False, "*" + ns[-1][-1]]]],
+              lambda ns: ["not", ["id", ns[0]]]]
+    namesets = [["flt"], ["s1", "s2"], ["t1"], ["sel", "s1"], ["flt", "t1", "t2"], ["x9"]]
+    combos = []
+    for nf in (2, 3):
+        for mode in ("separate", "one_call", "stream"):
+            for same in (True, False):
+                combos.append((nf, mode, same))
+    reps = 3 if not big else 40
+    for nf, mode, same in combos:
+        for _ in range(reps):
+            base = rng.choice(namesets)
+            fl = []
+            for j in range(nf):
+                ns = base if same else rng.choice(namesets)
+                fl.append({"dets": ns, "cond": rng.choice(fconds)(ns)})
+            if not same and len({tuple(f["dets"]) for f in fl}) == 1:
+                fl[-1] = {"dets": ["zz1"], "cond": ["not", ["id", "zz1"]]}
+            if not any(cond_pats(f["cond"]) for f in fl):
+                fl[0]["cond"] = ["not", ["sel", False, "them"]]
+            rn = rng.sample(["d1", "d2", "e1", "sel"], rng.randint(1, 3))
+            c = {"k": "names", "dets": rn, "cond": rand_cond(rng, rn, ["d*", "them", "*"], rng.randint(0, 2)), "filters": fl,
+                 "adds": [rng.random() < 0.3 for _ in range(rng.choice([0, 0, 1, 2]))], "rseed": rng.randint(0, 10 ** 6),
+                 "mode": mode, "plans": draw_plans(rng, nf, varlen=rng.random() < 0.25)}
+            out.append(c)
     return out
+
+
+def _draw(rng):
+    return "".join(rng.choice("abcdefghijklmnopqrstuvwxyz") for _ in range(10))
+
+
+def draw_plans(rng, nf, varlen=False):
+    """one plan per worker process.  {}: draws of the seeded random module; reseed: random.seed(s) right before every
+    apply_filters call (same state before each application); script: results of the next random.choices calls -
+    repeated draws, a colliding draw first, (outside the proved domain) draws of different lengths that are prefixes
+    of each other.  The output has to be the same under every plan."""
+    a, b, c = _draw(rng), _draw(rng), _draw(rng)
+    scripts = [[a] * (nf + rng.randint(0, 2)) + [b] * rng.randint(1, 3) + [c, c],          # the same draw again and again
+               [a, b, a, a, b, c, b, a],                                                    # earlier prefixes come back
+               [a] * 6]                                                                     # then real draws
+    if varlen:
+        scripts.append(rng.choice([["a", "ab", "a", "abc", "ab"], ["abc", "ab", "a"], [a, a[:5], a[:5] + "z", a]]))
+    rng.shuffle(scripts)
+    return [{}, {"reseed": rng.randint(0, 10 ** 6)}, {"script": scripts[0]}, {"script": scripts[1]}]
 
 
 # ------------------------------------------------------------------------------------------
@@ -171,10 +224,11 @@ class _Share:
         return "".join(f"let {v} := {t} in " for t, v in self.tab.items()) + body
 
 
-def crun(sh, ok, text="", fields=(), fm=(), tf=(), cn=(), fn=(), tree=None):
-    return ("{| i_ok := %s; i_text := %s; i_fields := %s; i_fm := %s; i_tf := %s; i_cn := %s; i_fn := %s; i_tree := %s |}"
+def crun(sh, ok, text="", fields=(), fm=(), tf=(), cn=(), fn=(), fd=(), tree=None):
+    return ("{| i_ok := %s; i_text := %s; i_fields := %s; i_fm := %s; i_tf := %s; i_cn := %s; i_fn := %s; i_fd := %s; i_tree := %s |}"
             % (cbool(ok), sh(cstr(text)), sh(clist(clist(cstr(f) for f in d) for d in fields)), sh(cdict(fm)), sh(cdict(tf)),
-               clist(cstr(x) for x in cn), clist(cstr(x) for x in fn), sh(ctree(tree)) if tree else "INone"))
+               clist(cstr(x) for x in cn), clist(cstr(x) for x in fn), clist(clist(cstr(x) for x in d) for d in fd),
+               sh(ctree(tree)) if tree else "INone"))
 
 
 def site_coq(c):
@@ -217,7 +271,7 @@ def sites_to_coq(c, r):
                 return None          # another Sigma error than the modelled ones (e.g. empty selector): skipped
             runs.append(crun(sh, False, x["err"]))
         elif "undef" in x:
-            runs.append(crun(sh, False, x["undef"], cn=x["cnames"], fn=x["fnames"]))
+            runs.append(crun(sh, False, x["undef"], cn=x["cnames"], fn=x["fnames"], fd=x["fdraws"]))
         elif c["k"] == "strict":
             runs.append(crun(sh, True, x["ok"], fields=x["fields"], fm=x["fm"], tf=x["tf"]))
         elif c["k"] == "tracking":
@@ -226,7 +280,7 @@ def sites_to_coq(c, r):
         elif c["k"] == "names":
             if "?" in json.dumps(x["tree"]):
                 return None
-            runs.append(crun(sh, True, x["ok"], cn=x["cnames"], fn=x["fnames"], tree=x["tree"]))
+            runs.append(crun(sh, True, x["ok"], cn=x["cnames"], fn=x["fnames"], fd=x["fdraws"], tree=x["tree"]))
         else:
             runs.append(crun(sh, True, x["ok"]))
     return "(" + sh.wrap(f"({site_coq(c)}, {clist(runs)})") + ")"
@@ -241,7 +295,7 @@ def kf_filter_undef(c):
 
 
 def known_sites(c, r):
-    if kf_filter_undef(c) and all("undef" in x and ID_RE.match(x["undef"]) for x in r.get("runs", [])):
+    if kf_filter_undef(c) and all("undef" in x and x["undef"].startswith("_filt_") for x in r.get("runs", [])):
         return "C20-F2-error-text-names-drawn-filter-prefix"
     if kf_underscore(c):
         return "C20-F1-underscore-selector-captures-drawn-names"
@@ -286,15 +340,15 @@ def mutate_sites(c, rng):
 from props.c20_corpus import build_corpus, entry_known   # noqa: E402
 
 
-def _run_driver(corpus_path, hseed, rseed):
+def _run_driver(corpus_path, hseed, rseed, plan="once"):
     env = dict(os.environ)
     env.update({"PYTHONPATH": REPO + os.pathsep + VERIF, "PYTHONHASHSEED": str(hseed), "PYTHONDONTWRITEBYTECODE": "1"})
-    p = subprocess.run([IMPL_PY, os.path.join(VERIF, "impl", "c20.py"), "--driver", corpus_path, str(rseed)],
+    p = subprocess.run([IMPL_PY, os.path.join(VERIF, "impl", "c20.py"), "--driver", corpus_path, str(rseed), plan],
                        capture_output=True, text=True, env=env, timeout=1500, cwd=VERIF)
     lines = [json.loads(l[2:]) for l in p.stdout.splitlines() if l.startswith("R ")]
     if p.returncode != 0:
         raise RuntimeError(f"driver failed (hash seed {hseed}, random seed {rseed}): {p.stderr[-1500:]}")
-    return (hseed, rseed), lines
+    return (hseed, rseed, plan), lines
 
 
 def norm_ids(o):
@@ -316,7 +370,9 @@ def process_check(tier, seed):
     try:
         path = os.path.join(tmp, "corpus.json")
         json.dump(corpus, open(path, "w"))
-        jobs = [(h, r) for h in hseeds for r in rseeds]
+        # every second random seed runs under the adversarial plan "each" (random.seed before each separate
+        # apply_filters call of the entries that have `filters_separate`)
+        jobs = [(h, r, "each" if k % 2 else "once") for h in hseeds for k, r in enumerate(rseeds)]
         with cf.ThreadPoolExecutor(NPROC) as ex:
             results = list(ex.map(lambda j: _run_driver(path, *j), jobs))
     finally:
@@ -361,20 +417,20 @@ def process_check(tier, seed):
             # the draw decides; runs with the same random seed (same draws) must still agree across hash seeds
             byr = {}
             explained = True
-            for (h, r), lines in results:
+            for (h, r, _pl), lines in results:
                 if byr.setdefault(r, lines[i]["sha"]) != lines[i]["sha"]:
                     explained = False
         if fid and explained:
             known_hits.setdefault(fid, {"entry": entry["id"]})
             stats["known_finding_entries"] += 1
             continue
-        (h2, r2), other = diff
+        (h2, r2, pl2), other = diff
         problems.append(Problem("violation", "process",
-                                {"entry": entry, "seeds_a": {"PYTHONHASHSEED": ref_key[0], "random.seed": ref_key[1]},
-                                 "seeds_b": {"PYTHONHASHSEED": h2, "random.seed": r2}},
+                                {"entry": entry, "seeds_a": {"PYTHONHASHSEED": ref_key[0], "random.seed": ref_key[1], "plan": ref_key[2]},
+                                 "seeds_b": {"PYTHONHASHSEED": h2, "random.seed": r2, "plan": pl2}},
                                 {"why": "output differs between two processes", "output_a": base["out"], "output_b": other["out"],
                                  "how_to_replay": "write [entry] to a JSON file F, then run twice: PYTHONHASHSEED=<seed> PYTHONPATH=<repo>:<verif> "
-                                                  "/venv/bin/python impl/c20.py --driver F <random.seed>  and compare the printed records"}))
+                                                  "/venv/bin/python impl/c20.py --driver F <random.seed> <plan>  and compare the printed records"}))
     return {"name": "process", "problems": problems, "evaluations": len(corpus) * len(results),
             "nontrivial_keys": sorted(nontriv), "stats": stats, "known_hits": known_hits,
             "samples": [{"suite": "process", "case": corpus[0]["id"], "impl": ref[0]["sha"]}]}
